@@ -1,7 +1,11 @@
 //go:build !(go1.27 && !http2legacy)
 
-// Stand-alone reproduction of the C16 finding
+// Stand-alone regression test for the C16 finding
 //   C16/server-panic/http2.(*serverConn).startFrameWrite
+// C16 rediscovered it by enumeration (minimal session: cfg 7540-hw-blk, items
+// [H1, D1]) on the tree before /repo commit cff93e4 ("RFC 7540 scheduler must
+// drop a closed stream's queue from the retained node"); that commit fixes it:
+// this test FAILS on cff93e4^ and PASSES from cff93e4 on.
 // (the server-level face of the C12 scheduler defect: after CloseStream on a
 // stream that still has queued frames, the RFC 7540 priority scheduler's Pop
 // returns ok=true with a zero FrameWriteRequest; serverConn.startFrameWrite then
@@ -40,7 +44,11 @@ func TestC16RFC7540SchedulerPanic(t *testing.T) {
 		}, func(s *Server) {
 			s.NewWriteScheduler = func() WriteScheduler { return NewPriorityWriteScheduler(nil) }
 		})
-		st.greet()
+		st.writePreface()
+		st.writeSettings()
+		synctest.Wait()
+		for st.readFrame() != nil { // server SETTINGS, WINDOW_UPDATE, SETTINGS ack
+		}
 		cli := st.cc.(*synctestNetConn)
 		cli.SetReadBufferSize(1) // the client stops reading
 		st.writeHeaders(HeadersFrameParam{StreamID: 1, BlockFragment: st.encodeHeader(), EndStream: true, EndHeaders: true})
